@@ -91,7 +91,9 @@ AllSrcs == <<cur.src>> \o (IF "alts" \in DOMAIN cur THEN cur.alts ELSE <<>>)
 (* missing is left open, and its explicit form with `not` may differ there).                    *)
 Pinned(d) == ~HasOracle(cur) \/ "alts" \notin DOMAIN cur \/
              \A i \in DOMAIN AllSrcs : Cardinality(LangVerdicts(AllSrcs[i], cur.docs[d])) = 1
-DK(k, d) == <<Cls(k), IF Pinned(d) THEN 0 ELSE SrcIdx(k), d>>
+(* documents that differ only in fields the rule does not address share a class (C16) *)
+DocCls(d) == IF "dcls" \in DOMAIN cur THEN cur.dcls[d] ELSE d
+DK(k, d) == <<Cls(k), IF Pinned(d) THEN 0 ELSE SrcIdx(k), DocCls(d)>>
 
 (* the verdicts the specification allows for object k on document d (1-based)               *)
 Allowed(k, d) ==
